@@ -283,14 +283,24 @@ pub fn render(line: &str) -> String {
     .unwrap_or_else(|m| format!("PANIC {}", m.replace('\n', " ")))
 }
 
+include!(concat!(env!("CARGO_MANIFEST_DIR"), "/gen_unicode.rs"));
+
 /// request: a Unicode property name as accepted by pest::unicode::by_name; reply: the maximal ranges of scalar values
 /// for which the *compiled* property function is true, `a-b,c-d,..` (hex), or NONE
 pub fn unicode_ranges(line: &str) -> String {
     let name = line.trim().to_string();
     guarded(move || {
-        let f = match pest::unicode::by_name(&name) {
-            Some(f) => f,
-            None => return "NONE".to_string(),
+        // `fn:NAME`: the property function itself; `NAME`: what by_name resolves (the table's trie)
+        let f: Box<dyn Fn(char) -> bool> = if let Some(id) = name.strip_prefix("fn:") {
+            match unicode_fn(id) {
+                Some(f) => Box::new(f),
+                None => return "NONE".to_string(),
+            }
+        } else {
+            match pest::unicode::by_name(&name) {
+                Some(f) => f,
+                None => return "NONE".to_string(),
+            }
         };
         let mut out: Vec<String> = Vec::new();
         let mut start: Option<u32> = None;
